@@ -14,6 +14,7 @@ Pipeline C: the drivers header and bind run every vector through real sessions
 (xmpp.NewSession / xmpp.ReceiveSession, default and WebSocket negotiator, BindResource /
 BindCustom) and compare with the expectation."""
 import json
+import re
 
 import authcommon as ac
 import verif
@@ -150,8 +151,10 @@ def run(ctx):
             ctx.known_finding(open_classes[cls], "%d vectors" % len(ms))
             continue
         for fam, what, m in ms[:4]:
-            ctx.violation("%s [%s, %d vectors in this class]" % (what, cls, len(ms)),
-                          {"family": fam, "class": cls, "vector": m["vector"], "observed": {k: v for k, v in m.items() if k != "vector"},
+            # (random stream / request ids are masked so that the same finding gets the same replay file)
+            obs = json.loads(re.sub(r"[0-9a-f]{16}", "<random id>", json.dumps({k: v for k, v in m.items() if k != "vector"})))
+            ctx.violation("%s [%s, %d vectors in this class]" % (re.sub(r"[0-9a-f]{16}", "<random id>", what), cls, len(ms)),
+                          {"family": fam, "class": cls, "vector": m["vector"], "observed": obs,
                            "expected": m["vector"].get("exp")})
     nself = selftest(ctx, files) if not ctx.replay else 0
     nvec = sum(t["vectors"] for t in totals.values())
